@@ -348,3 +348,133 @@ func (p *Prog) FileOf(pos token.Pos) (*packages.Package, *ast.File) {
 	}
 	return nil, nil
 }
+
+// ReachableFrom returns the set of functions reachable in the VTA call graph from the
+// given roots (closures created in a reachable function are included).
+func (p *Prog) ReachableFrom(roots ...*ssa.Function) map[*ssa.Function]bool {
+	cg := p.CallGraph()
+	seen := map[*ssa.Function]bool{}
+	var stack []*ssa.Function
+	push := func(f *ssa.Function) {
+		if f != nil && !seen[f] {
+			seen[f] = true
+			stack = append(stack, f)
+		}
+	}
+	for _, r := range roots {
+		push(r)
+	}
+	for len(stack) > 0 {
+		f := stack[len(stack)-1]
+		stack = stack[:len(stack)-1]
+		if n := cg.Nodes[f]; n != nil {
+			for _, e := range n.Out {
+				push(e.Callee.Func)
+			}
+		}
+		for _, a := range f.AnonFuncs {
+			push(a)
+		}
+		// function values referenced (method values, funcs stored in tables)
+		for _, b := range f.Blocks {
+			for _, in := range b.Instrs {
+				for _, op := range in.Operands(nil) {
+					if op == nil || *op == nil {
+						continue
+					}
+					switch v := (*op).(type) {
+					case *ssa.Function:
+						push(v)
+					case *ssa.MakeClosure:
+						if fn, ok := v.Fn.(*ssa.Function); ok {
+							push(fn)
+						}
+					}
+				}
+			}
+		}
+	}
+	return seen
+}
+
+// NodeRoots returns the entry points of the two node binaries (miner, sharder): their
+// main functions and package initialisers of everything they import are approximated by
+// main + every init function of module packages.
+func (p *Prog) NodeRoots() []*ssa.Function {
+	var roots []*ssa.Function
+	for _, path := range []string{"0chain.net/miner/miner", "0chain.net/sharder/sharder"} {
+		if sp := p.SSAPkgs[path]; sp != nil {
+			if f := sp.Func("main"); f != nil {
+				roots = append(roots, f)
+			}
+			if f := sp.Func("init"); f != nil {
+				roots = append(roots, f)
+			}
+		}
+	}
+	return roots
+}
+
+var nodeReach map[*ssa.Function]bool
+
+// NodeReachable: functions reachable from the miner or sharder binary (incl. the
+// init functions of all packages those binaries import).
+func (p *Prog) NodeReachable() map[*ssa.Function]bool {
+	if nodeReach != nil {
+		return nodeReach
+	}
+	roots := p.NodeRoots()
+	// package initialisers of transitively imported module packages
+	seenPk := map[string]bool{}
+	var visit func(pk *packages.Package)
+	visit = func(pk *packages.Package) {
+		if pk == nil || seenPk[pk.PkgPath] {
+			return
+		}
+		seenPk[pk.PkgPath] = true
+		if IsFirstParty(pk.PkgPath) {
+			if sp := p.SSAPkgs[pk.PkgPath]; sp != nil {
+				if f := sp.Func("init"); f != nil {
+					roots = append(roots, f)
+				}
+			}
+		}
+		for _, im := range pk.Imports {
+			visit(im)
+		}
+	}
+	visit(p.Pkgs["0chain.net/miner/miner"])
+	visit(p.Pkgs["0chain.net/sharder/sharder"])
+	nodeReach = p.ReachableFrom(roots...)
+	return nodeReach
+}
+
+
+var nodePkgs map[string]bool
+
+// NodePackages: import paths linked into the miner or sharder binary (transitive
+// imports of their main packages). Code outside this set cannot run in a node.
+func (p *Prog) NodePackages() map[string]bool {
+	if nodePkgs != nil {
+		return nodePkgs
+	}
+	nodePkgs = map[string]bool{}
+	var visit func(pk *packages.Package)
+	visit = func(pk *packages.Package) {
+		if pk == nil || nodePkgs[pk.PkgPath] {
+			return
+		}
+		nodePkgs[pk.PkgPath] = true
+		for _, im := range pk.Imports {
+			visit(im)
+		}
+	}
+	visit(p.Pkgs["0chain.net/miner/miner"])
+	visit(p.Pkgs["0chain.net/sharder/sharder"])
+	return nodePkgs
+}
+
+// InNode reports whether fn's package is linked into a node binary.
+func (p *Prog) InNode(fn *ssa.Function) bool {
+	return fn.Pkg != nil && p.NodePackages()[fn.Pkg.Pkg.Path()]
+}
